@@ -215,6 +215,9 @@ func execC28(t *testing.T, scAny any, keepLog bool) *Outcome {
 		s := run.S
 		scfg := serverConfig(sc.Server, s, run.R.Derive("srv-rand"))
 		ccfg := clientConfig(sc.Client, s, run.R.Derive("cli-rand"))
+		// signature_algorithms of a ClientHello that comes from a template: what the template says, including code points
+		// this library has no name for (rsa_pss_pss_*, ed448, SHA-224 / DSA pairs, a GREASE value)
+		tmplSigAlgs := [][]uint16{{0x0401, 0x0501, 0x0201}, {0x0809, 0x0401, 0x0808, 0x0501, 0x0302, 0x0201}, {0x0403, 0x080a, 0x0804, 0x0401, 0x0a0a}}[int(sc.Seed>>7)%3]
 		if sc.FPSid >= 0 {
 			ccfg.ForceSuites = true
 			ccfg.ClientFingerprintConfiguration = &tls.ClientFingerprintConfiguration{
@@ -223,7 +226,7 @@ func execC28(t *testing.T, scAny any, keepLog bool) *Outcome {
 				CipherSuites:       []uint16{0xc02f, 0xc013, 0x009c, 0x002f, 0x0035},
 				CompressionMethods: []uint8{0},
 				Extensions: []tls.ClientExtension{&tls.SNIExtension{Autopopulate: true}, &tls.SupportedCurvesExtension{Curves: []tls.CurveID{tls.X25519, tls.CurveP256}},
-					&tls.PointFormatExtension{Formats: []uint8{0}}, &tls.SignatureAlgorithmExtension{SignatureAndHashes: []uint16{0x0401, 0x0501, 0x0201}}, &tls.SecureRenegotiationExtension{}},
+					&tls.PointFormatExtension{Formats: []uint8{0}}, &tls.SignatureAlgorithmExtension{SignatureAndHashes: tmplSigAlgs}, &tls.SecureRenegotiationExtension{}},
 			}
 			o.count("probe.fingerprinted_client_hello", 1)
 		}
@@ -244,7 +247,7 @@ func execC28(t *testing.T, scAny any, keepLog bool) *Outcome {
 			ex = append(ex, refExt(fpExt{Kind: "sni", Names: []string{sni}}, "")...)
 			ex = append(ex, refExt(fpExt{Kind: "curves", U16: []uint16{29, 23}}, "")...)
 			ex = append(ex, refExt(fpExt{Kind: "points", Bytes: []byte{0}}, "")...)
-			ex = append(ex, refExt(fpExt{Kind: "sigalgs", U16: []uint16{0x0401, 0x0501, 0x0201}}, "")...)
+			ex = append(ex, refExt(fpExt{Kind: "sigalgs", U16: tmplSigAlgs}, "")...)
 			ex = append(ex, refExt(fpExt{Kind: "reneg"}, "")...)
 			b = append(b, byte(len(ex)>>8), byte(len(ex)))
 			b = append(b, ex...)
